@@ -128,11 +128,16 @@ func supervise(ctx *Ctx) int {
 			code = ee.ExitCode()
 		}
 	}
+	stderr := tailBuf.String()
+	// the Go runtime itself exits with status 2 after a fatal error or an unrecovered panic,
+	// which is also the "check is broken" status: tell them apart by the crash report
+	crashed := code == ev.ExitBroken && (strings.Contains(stderr, "fatal error:") || strings.Contains(stderr, "\npanic: ") || strings.HasPrefix(stderr, "panic: ")) && strings.Contains(stderr, "goroutine ")
 	switch code {
 	case ev.ExitOK, ev.ExitViolation, ev.ExitInconclusive, ev.ExitBroken:
-		return code
+		if !crashed {
+			return code
+		}
 	}
-	stderr := tailBuf.String()
 	kind := "exit"
 	switch {
 	case strings.Contains(stderr, "fatal error:"):
